@@ -6,6 +6,7 @@ mod dhcpdns;
 mod mk;
 mod runner;
 mod scen_adv;
+mod scen_dhcp;
 mod scen_dgram;
 mod scen_dns;
 mod scen_inject;
@@ -65,6 +66,10 @@ fn dns_scn(t: &mut Tape, p: Props, thorough: bool, trace: bool) -> Outcome {
     scen_dns::run(t, p, thorough, trace)
 }
 
+fn dhcp_scn(t: &mut Tape, p: Props, thorough: bool, trace: bool) -> Outcome {
+    scen_dhcp::run(t, p, thorough, trace)
+}
+
 const REAL: &str = "smoltcp::iface::Interface, SocketSet, all socket types used by the scenario, wire, storage, iface::{neighbor,route,fragmentation} - built from /repo's working tree";
 const STUB: &str = "device (SimDevice), link, clock, application workload, scripted peers (own codec, no smoltcp::wire)";
 
@@ -118,6 +123,8 @@ fn defs() -> &'static [CheckDef] {
                     Scen { name: "tcp-peer-sender", weight: 1, run: peer_sender },
                     Scen { name: "tcp-peer-states", weight: 2, run: peer_states },
                     Scen { name: "tcp-pair-safety", weight: 1, run: tcp_safety },
+                    Scen { name: "dhcp-client", weight: 1, run: dhcp_scn },
+                    Scen { name: "dns-resolver", weight: 1, run: dns_scn },
                 ],
                 rule: "every call into the library runs under catch_unwind and a watchdog; one run = one seeded scenario execution (adversarial frame sequences, scripted TCP peers, two-node faulty links); non-trivial per scenario rule; distinct = event-log hash",
                 assumptions: vec!["build profile: release with debug-assertions and overflow-checks (what a development build of a user sees)"],
@@ -193,6 +200,17 @@ fn defs() -> &'static [CheckDef] {
                 thorough_s: 600.0,
             },
             CheckDef {
+                id: "C18",
+                props: Props::of(&["C18"]),
+                scens: vec![Scen { name: "dhcp-client", weight: 1, run: dhcp_scn }],
+                rule: "one run = a real DHCPv4 client on Ethernet whose configuration is applied to the interface like an application would, polled per poll_at (with occasional late polls), against a scripted server that answers with correct or deliberately invalid OFFER/ACK/NAK (foreign xid or MAC, missing server id, non-contiguous mask, non-unicast address, lease/T1/T2 in {0,1,equal,inverted,2^32-1,absent}, truncated or overlong options), lost, delayed or duplicated, and that may stop answering DHCP or ARP; clock origin up to 30 years; non-trivial = >= 1 Configured event and >= 2 server messages; distinct = event-log hash",
+                assumptions: vec!["t_ack is the instant of the poll that ingested the ACK", "when any not-plain ACK was ingested since binding, the lease bound is relaxed to the maximum over the valid ACKs ingested"],
+                real: REAL,
+                stub: STUB,
+                quick_s: 20.0,
+                thorough_s: 600.0,
+            },
+            CheckDef {
                 id: "C19",
                 props: Props::of(&["C19"]),
                 scens: vec![Scen { name: "dns-resolver", weight: 1, run: dns_scn }],
@@ -215,6 +233,7 @@ fn defs() -> &'static [CheckDef] {
                     Scen { name: "dgram-pair-sloppy", weight: 2, run: dgram_sloppy },
                     Scen { name: "dgram-pair-frag", weight: 2, run: dgram_frag },
                     Scen { name: "dns-resolver", weight: 1, run: dns_scn },
+                    Scen { name: "dhcp-client", weight: 1, run: dhcp_scn },
                     Scen { name: "adversary-any-medium", weight: 3, run: adv_any },
                     Scen { name: "injector", weight: 2, run: injector },
                 ],
@@ -237,6 +256,7 @@ fn defs() -> &'static [CheckDef] {
                     Scen { name: "dgram-pair-sloppy", weight: 2, run: dgram_sloppy },
                     Scen { name: "dgram-pair-frag", weight: 2, run: dgram_frag },
                     Scen { name: "dns-resolver", weight: 1, run: dns_scn },
+                    Scen { name: "dhcp-client", weight: 1, run: dhcp_scn },
                     Scen { name: "adversary-any-medium", weight: 3, run: adv_any },
                     Scen { name: "injector", weight: 2, run: injector },
                 ],
